@@ -161,6 +161,9 @@ func runC12(r *Report) {
 	r.Rule("C12/env", "no call to time/rand/env/host/runtime-introspection sources reachable from Generate (allow-list: one named symbol with reason)")
 	r.Rule("C12/concurrency", "no go statement, select or channel operation reachable from Generate")
 	r.Rule("C12/ptr-format", "no %p / pointer-valued %v operand formatted into generated text")
+	r.Rule("C12/truncate", "output files are opened with O_TRUNC: bytes on disk do not depend on a previous, longer file")
+	r.Rule("C12/fs-reads", "the generation path reads no file-system state besides spec file, config file and the --dir listing; goimports gets no file name")
+	r.Rule("C12/global-state", "no package-level variable (or container held in one) is written outside package initialisers on the generation path")
 	r.Rule("C12/witness", "the rule engine flags the positive witnesses in testdata (anti-vacuity for zero-count rules)")
 	r.Assumptions = append(r.Assumptions,
 		"kin-openapi, yaml, x/tools/imports, text/template are deterministic given deterministic inputs (text/template ranges over maps in sorted key order by contract)",
@@ -216,6 +219,9 @@ func runC12(r *Report) {
 	r.FloorMin("reachable functions", nReach, 300)
 	r.FloorMin("map-range sites reachable from Generate", nRange, 5)
 	r.FloorMin("template entry methods", len(s.TmplEnt), 60)
+	ruleTruncate(r, s, "C12/truncate")
+	ruleFSReads(r, s, "C12/fs-reads")
+	ruleGlobalState(r, s, "C12/global-state")
 	c12Witness(r)
 }
 
